@@ -17,6 +17,7 @@ func init() {
 func checkC08(c *Ctx, r *Report) {
 	// "the command fails instead of writing an invalid document": a rejected document is a non-zero exit (shared with C14.d, C20.a)
 	defer checkCommandExitStatus(c, r, "C08.a")
+	defer func() { ruleSkipInventory(c, r, "C08.d", loadSkipTable(c.VerifDir), 1, "generator/swagen") }()
 	defer checkOrderedJSONIsEncoderOutput(c, r, "C08.b")
 	defer func() { ruleRegexInventory(c, r, "C08.d", "core/validators", "common") }()
 	w := c.W
